@@ -55,6 +55,11 @@ POOL = [
     ("$I0", 109, None, [(("e", "$C0"), 1), (("e", "$A0"), -1)]),
     ("$I1", 109, None, [(("e", "$C1"), 1), (("e", "$A0"), -1)]),
     ("$I2", 109, None, [(("e", "$C0"), 1), (("e", "$A1"), -1)]),
+    # three elements with one sort key whose _get_factor raises TypeError
+    # (the behaviour of classes with definitions whose names tie)
+    ("$J0", 110, "!J0", None),
+    ("$J1", 110, "!J1", None),
+    ("$J2", 110, "!J2", None),
 ]
 BASE = {n for n, k, f, d in POOL if d is None}
 
